@@ -89,12 +89,19 @@ class RecordingTask(M.Task):
         log = self.data["log"]
         log.append(list(x) if isinstance(x, (list, tuple)) else x)
         f = self.data["f"]
-        return f(x, len(log) - 1)
+        r = f(x, len(log) - 1)
+        if self.data.get("mutate"):
+            # an objective is arbitrary user code: it may edit the list it is given in place (rescaling, sorting, ...)
+            try:
+                x[:] = [1e9 for _ in x] + [7]
+            except TypeError:
+                pass
+        return r
 
 
-def make_task(variables, f, minmax=TaskType.MIN, weights=None, seed=None):
+def make_task(variables, f, minmax=TaskType.MIN, weights=None, seed=None, mutate=False):
     return RecordingTask(variables=variables, minmax=minmax, objective_weights=weights, seed=seed,
-                         data={"log": [], "f": f})
+                         data={"log": [], "f": f, "mutate": mutate})
 
 
 # ------------------------------------------------------------------------------------------------ variable shapes
